@@ -274,6 +274,14 @@ impl Search {
                         best_ply,
                     },
                 );
+            #[cfg(rce_verif)]
+            crate::verif_hooks::tt_written(
+                0,
+                self.board.zkey,
+                self.info.nodes,
+                self.limits.nodes,
+                &self.running,
+            );
 
             self.info.best_score = Some(alpha);
             self.info.best_move = Some(best_ply);
@@ -432,6 +440,14 @@ impl Search {
                             best_ply: mv,
                         },
                     );
+                #[cfg(rce_verif)]
+                crate::verif_hooks::tt_written(
+                    1,
+                    self.board.zkey,
+                    self.info.nodes,
+                    self.limits.nodes,
+                    &self.running,
+                );
 
                 self.store_killers(mv);
 
@@ -469,6 +485,14 @@ impl Search {
                     best_ply,
                 },
             );
+        #[cfg(rce_verif)]
+        crate::verif_hooks::tt_written(
+            2,
+            self.board.zkey,
+            self.info.nodes,
+            self.limits.nodes,
+            &self.running,
+        );
 
         alpha
     }
